@@ -1,4 +1,42 @@
-import SdModel.Model.Derive
+import SdModel.Lemmas.DeriveKnot
+
+/-!
+# C06 — `apply`, `apply_ref`, `apply_mut` and repeated `apply_single` agree; `apply_ref` is pure
+
+The four entry points are modelled separately (`TySem.apply`, `applyRef`, `applyMut`, and `singles` = feeding
+the entries one at a time to `apply_single`), as the trait's default methods are separate functions, and are
+proved equal for EVERY semantics `S` (so also for hand-written `apply_single`s) and every entry list, including
+lists that make `apply_single` panic (the panic is then reported by all four).
+Purity ("`apply_ref` leaves `x` unchanged", "computing a diff modifies neither argument") is not a theorem about
+the model — a functional model cannot mutate — it is checked on the real code by the correspondence harness
+(the receiver and both arguments are compared with clones taken before the call).
+-/
 namespace C06
-theorem placeholder : True := trivial
+open Derive
+
+/-- feeding the entries one by one to `apply_single` -/
+def singles (S : TySem) (x : Val) : Entries → Except String Val
+  | [] => .ok x
+  | e :: es => match S.applySingle x e with
+    | .ok x' => singles S x' es
+    | .error m => .error m
+
+theorem applyRef_eq_apply (S : TySem) (x : Val) (d : Entries) : S.applyRef x d = S.apply x d := rfl
+theorem applyMut_eq_apply (S : TySem) (x : Val) (d : Entries) : S.applyMut x d = S.apply x d :=
+  Derive.applyMut_eq_apply S x d
+theorem singles_eq_apply (S : TySem) (x : Val) (d : Entries) : singles S x d = S.apply x d := by
+  induction d generalizing x with
+  | nil => rfl
+  | cons e es ih =>
+    simp only [singles, TySem.apply]
+    cases S.applySingle x e with
+    | ok x' => exact ih x'
+    | error m => rfl
+
+/-- **C06**: all four agree, for every derived type, every value and every diff -/
+theorem all_agree (t : Ty) (x : Val) (d : Entries) :
+    (semTy t).applyRef x d = (semTy t).apply x d ∧ (semTy t).applyMut x d = (semTy t).apply x d ∧
+    singles (semTy t) x d = (semTy t).apply x d :=
+  ⟨rfl, applyMut_eq_apply _ x d, singles_eq_apply _ x d⟩
+
 end C06
